@@ -17,6 +17,20 @@ NOT_APPLICABLE = {
 
 # property id -> dict(level, text, note, technique, design_ref, module)
 CLAIMED = {
+    "C06": dict(
+        level="exploration",
+        technique="deterministic simulation: seeded histories of configuration edits, temporary-feature assignments, reads and availability tests on a long-lived dataset vs. a freshly constructed one; independent emodulus precedence table",
+        design_ref="DESIGN.md section 4 (C06)",
+        text=("Seeded histories (<=40 operations) set, change and delete [calculation]/[imaging]/[setup] keys (emodulus scenarios A/B/C, "
+              "crosstalk, pixel size, frame rate, flow rate, chip region), set and replace a temporary feature, read on-demand features "
+              "(emodulus, area_um, time, deform, area_ratio, volume, contour, brightness, inertia ratio, crosstalk-corrected maxima, "
+              "ml_class, a two-output plugin feature) and test availability on dict-backed, file-backed and hierarchy-child datasets, "
+              "with read-edit-read patterns favoured; at every read the value must be bit-identical to that of a freshly constructed "
+              "dataset with the same data and current configuration, availability must agree with the fresh dataset and with whether "
+              "reading succeeds, and emodulus must equal a direct get_emodulus call with inputs chosen by an independent precedence table."),
+        note=("Sampling. Same code computes both sides, so the comparison isolates caching/availability logic, not numerics (C05 is not "
+              "claimed). Contradictory key sets for which dclab raises deliberate errors are not generated; children are judged after a refresh."),
+    ),
     "C03": dict(
         level="exploration",
         technique="deterministic simulation: seeded histories of filter-setting edits and applications against a stateless specification (independent even-odd polygon test), fresh-dataset cross-check",
@@ -100,7 +114,7 @@ CLAIMED = {
 
 # properties whose checks are still under construction (kept in not_applicable with that
 # reason until the check exists, so that MANIFEST.json is valid and honest at every commit)
-PENDING = ["C02", "C06", "C07", "C08", "C09", "C10", "C13", "C14", "C17"]
+PENDING = ["C02", "C07", "C08", "C09", "C10", "C13", "C14", "C17"]
 for _p in PENDING:
     if _p not in CLAIMED:
         NOT_APPLICABLE[_p] = "not claimed yet: check under construction (designed in DESIGN.md section 4; will be claimed once its machinery is committed)"
